@@ -4,17 +4,19 @@
    list; the parser model runs on explicit fuel proportional to the input; and, for every token
    list, the mirror of parse() never reaches a panic site: a tree that contains an error node always
    carries an error factory, so it never reaches the re-association passes ([ref:error_check]), and
-   check_definitions never meets a hole with a non-zero shift (C14_parse_never_panics). That the
-   fuel always suffices (C14_parse_fuel_statement) is checked on every explored input (a model
-   result POutOfFuel is a reported disagreement) and is not yet a theorem. Panics, aborts and the
+   check_definitions never meets a hole with a non-zero shift (C14_parse_never_panics); and the
+   linear fuel always suffices, i.e. the parser model terminates on every token list
+   (C14_parse_terminates, from the absence of left recursion in the generated skeleton). Panics, aborts and the
    process-level contract of the real binary are explored by the library and CLI streams. *)
 From Coq Require Import List ZArith NArith Bool Arith.
 Import ListNotations.
 Require Import Gram.Model.Term Gram.Model.Token Gram.Gen.TokenTables Gram.Model.Tokenizer Gram.Proofs.TokenizerProofs.
-Require Import Gram.Model.Grammar Gram.Model.Parser Gram.Model.ParserPost Gram.Proofs.ContractProofs Gram.Proofs.PanicProofs.
+Require Import Gram.Model.Grammar Gram.Model.Parser Gram.Model.ParserPost Gram.Proofs.ContractProofs Gram.Proofs.PanicProofs Gram.Proofs.PackratProofs.
 
-Definition C14_parse_fuel_statement : Prop :=
-  forall toks ctx, fst (fst (parse_top toks true ctx)) <> POutOfFuel.
+Theorem C14_parse_terminates : forall toks memo ctx, fst (fst (parse_top toks memo ctx)) <> POutOfFuel.
+Proof. exact parse_top_within_fuel. Qed.
+Check C14_parse_terminates : forall toks memo ctx, fst (fst (parse_top toks memo ctx)) <> POutOfFuel.
+Print Assumptions C14_parse_terminates.
 
 Theorem C14_parse_never_panics : forall toks memo ctx, fst (fst (parse_top toks memo ctx)) <> PPanic.
 Proof. exact parse_top_never_panics. Qed.
